@@ -1,13 +1,14 @@
 SPECIFICATION Spec
 CONSTANT Cfg <- MCCfg2
-CONSTANT Solutions <- AllSolutions
-CONSTANT MaxEmpty = 3
+CONSTANT Solutions <- OneSolution
+CONSTANT MaxEmpty = 2
 CONSTANT Extra = 1
 INVARIANT TypeOK
 INVARIANT Protocol
 INVARIANT MaskSound
 INVARIANT MaskLayout
 INVARIANT ContinuesIffLegalLeft
+INVARIANT IllegalUniform
 INVARIANT FeasibleUnderLegalPlay
 INVARIANT CompletionIsSolution
 INVARIANT RewardedOnlyWhenSolved
